@@ -4,6 +4,7 @@
 import SimVerif.Drv.Kernel
 import SimVerif.Drv.HttpSrv
 import SimVerif.Drv.ProxySrv
+import SimVerif.Drv.SocksSrv
 
 namespace SimVerif.Drv
 
@@ -12,6 +13,6 @@ def Hooks.orElse (a b : Hooks) : Hooks :=
   { op := fun p ctx op s => (a.op p ctx op s).orElse (fun _ => b.op p ctx op s)
     internal := fun p h ec x d src s => (a.internal p h ec x d src s).orElse (fun _ => b.internal p h ec x d src s) }
 
-def allHooks : Hooks := httpHooks.orElse (proxyHooks.orElse {})
+def allHooks : Hooks := httpHooks.orElse (proxyHooks.orElse (socksHooks.orElse {}))
 
 end SimVerif.Drv
